@@ -10,7 +10,8 @@ from ..astutil import (
 )
 from ..cfg import no_exc
 from ..oracles import load, python_mutators
-from ..report import Registry, sub
+from ..report import Registry, chain, sub
+from ._helpers_rob_g2 import assuming, closure_consts, expand, normal_form, resolve_name, single_defs
 
 R = Registry(
     "C49",
@@ -231,21 +232,54 @@ def r3(ctx):
     lf = ctx.func(f"{MUT}::MutableBase._listen_on_attribute")
     nf = nested_functions(lf.node)
     ctx.require("pickle" in nf and "unpickle" in nf, "pickle/unpickle listeners not found in _listen_on_attribute")
-
-    def sd_keys(fn):
-        sd = fn.args.args[1].arg
-        ks = set()
-        for n in ast.walk(fn):
-            if isinstance(n, ast.Subscript) and isinstance(n.value, ast.Name) and n.value.id == sd and const_str(n.slice):
-                ks.add(const_str(n.slice))
-            if isinstance(n, ast.Compare) and len(n.comparators) == 1 and isinstance(n.comparators[0], ast.Name) \
-                    and n.comparators[0].id == sd and const_str(n.left):
-                ks.add(const_str(n.left))
-        return ks
-    wk, rk = sd_keys(nf["pickle"]), sd_keys(nf["unpickle"])
+    wk, rk = _state_dict_keys(ctx, lf, nf["pickle"]), _state_dict_keys(ctx, lf, nf["unpickle"])
     ctx.check(bool(rk) and rk <= wk, f"{lf.key}:pickle-key",
               f"unpickle listener reads state key(s) {sorted(rk)} but pickle listener writes {sorted(wk)}",
               f"key {sorted(rk)}", lf.loc)
+
+
+def _const_env(lf, inner):
+    """what a name used as a key inside the closure `inner` stands for: a single-assignment constant local of the
+    closure itself or of the enclosing function (closure variable)"""
+    env = dict(closure_consts(lf.node, inner))
+    env.update({n: v for n, v in single_defs(inner).items() if isinstance(v, ast.Constant)})
+    return env
+
+
+def _key_of(e, env, module):
+    e = resolve_name(e, env)
+    if const_str(e) is not None:
+        return const_str(e)
+    if isinstance(e, ast.Name):
+        vals = module.assigns.get(e.id) or []
+        if len(vals) == 1 and const_str(vals[0]) is not None:      # module-level constant
+            return const_str(vals[0])
+    return None
+
+
+def _state_dict_keys(ctx, lf, fn):
+    """string keys under which the listener closure `fn(state, state_dict)` accesses the pickled state dictionary:
+    `sd[K]`, `K in sd`, `sd.get/setdefault/pop(K, ..)` -- K a literal, a local / closure / module constant"""
+    ctx.require(len(fn.args.args) >= 2, f"{fn.name} listener signature not understood")
+    sd = fn.args.args[1].arg
+    env = _const_env(lf, fn)
+    sds = {sd} | {n for n, v in single_defs(fn).items() if isinstance(v, ast.Name) and v.id == sd}
+    ks = set()
+    exprs = []
+    for n in ast.walk(fn):
+        if isinstance(n, ast.Subscript) and isinstance(n.value, ast.Name) and n.value.id in sds:
+            exprs.append(n.slice)
+        if isinstance(n, ast.Compare) and len(n.comparators) == 1 and isinstance(n.ops[0], (ast.In, ast.NotIn)) \
+                and isinstance(n.comparators[0], ast.Name) and n.comparators[0].id in sds:
+            exprs.append(n.left)
+        if isinstance(n, ast.Call) and isinstance(n.func, ast.Attribute) and n.func.attr in ("get", "setdefault", "pop") \
+                and isinstance(n.func.value, ast.Name) and n.func.value.id in sds and n.args:
+            exprs.append(n.args[0])
+    for e in exprs:
+        k = _key_of(e, env, lf.module)
+        ctx.require(k is not None, f"{lf.key}: key `{unparse(e)}` of the pickled state dictionary in {fn.name}() is not a resolvable constant")
+        ks.add(k)
+    return ks
 
 
 EVENTS = {
@@ -254,14 +288,18 @@ EVENTS = {
 }
 
 
-@R.rule("C49-R4", floor=10, template="T-FLOW",
-        desc="Mutable.changed flags every parent via flag_modified(parent.obj(), key); _listen_on_attribute "
-             "registers load/refresh/set/pickle/unpickle listeners raw+propagate; set_ coerces foreign "
-             "values, links value._parents[target]=key and returns the value; load coerces and links")
-def r4(ctx):
-    f = ctx.func(f"{MUT}::Mutable.changed")
-    pm = f.module.parents()
-    good = False
+def _strip_materialise(e):
+    while isinstance(e, ast.Call) and isinstance(e.func, ast.Name) and e.func.id in ("list", "tuple", "iter", "sorted") and len(e.args) == 1:
+        e = e.args[0]
+    return e
+
+
+def _changed_flags_every_parent(ctx, f0):
+    """(ok, why) for Mutable.changed: flag_modified(<state>.obj(), <key>) for every item of self._parents, unconditionally"""
+    f = normal_form(ctx, f0, keep=("flag_modified", "obj"), alias="all")
+    g = ctx.cfg(f)
+    env = single_defs(f.node)
+    pm = f.pm
     why = "no flag_modified() call"
     for c in calls_in(f.node):
         if (call_name(c) or "").split(".")[-1] != "flag_modified":
@@ -273,28 +311,237 @@ def r4(ctx):
                 loop = cur
                 break
             cur = pm.get(cur)
-        guards = lexical_guards(pm, c, stop=f.node)
-        if loop is None or "self._parents" not in unparse(loop.iter):
+        it = _strip_materialise(expand(loop.iter, env)) if loop is not None else None
+        items = it is not None and isinstance(it, ast.Call) and isinstance(it.func, ast.Attribute) and it.func.attr == "items" \
+            and dotted(it.func.value) == "self._parents" and not it.args
+        keys_only = it is not None and (dotted(it) == "self._parents" or (
+            isinstance(it, ast.Call) and isinstance(it.func, ast.Attribute) and it.func.attr == "keys" and dotted(it.func.value) == "self._parents"))
+        if not (items or keys_only):
             why = "flag_modified() is not inside a loop over self._parents"
-        elif guards:
-            why = "flag_modified() is conditional: " + ", ".join(a for a, _ in guard_atoms(guards))
-        else:
-            tn = [n.id for n in ast.walk(loop.target) if isinstance(n, ast.Name)]
-            a0 = unparse(c.args[0]) if c.args else ""
-            a1 = unparse(c.args[1]) if len(c.args) > 1 else ""
-            if len(tn) == 2 and a0 == f"{tn[0]}.obj()" and a1 == tn[1] and ".items()" in unparse(loop.iter):
-                good = True
-            else:
-                why = f"flag_modified({a0}, {a1}) is not (parent.obj(), key) of the iterated _parents item"
+            continue
+        nodes = g.nodes_containing(c)
+        loop_vars = {n.id for n in ast.walk(loop.target) if isinstance(n, ast.Name)}
+        cond = []
+        for t, pol in (g.edge_guards(nodes[0]) if nodes else []):
+            te = expand(t, env)
+            reads = {n.id for n in ast.walk(te) if isinstance(n, ast.Name)}
+            if (reads & loop_vars) or not ({d for d in _dotted_reads(te)} <= {"self._parents"}):
+                cond.extend(a for a, _ in test_atoms(te, pol))
+        if cond or not nodes:
+            why = "flag_modified() is conditional: " + ", ".join(cond)
+            continue
+        a0 = expand(c.args[0], env) if c.args else None
+        a1 = expand(c.args[1], env) if len(c.args) > 1 else None
+        for kw_ in c.keywords:
+            if kw_.arg == "instance":
+                a0 = expand(kw_.value, env)
+            if kw_.arg == "key":
+                a1 = expand(kw_.value, env)
+        tn = [n.id for n in ast.walk(loop.target) if isinstance(n, ast.Name)]
+        good = False
+        if items and isinstance(loop.target, ast.Tuple) and len(tn) == 2:
+            good = a0 is not None and a1 is not None and unparse(a0) == f"{tn[0]}.obj()" and unparse(a1) == tn[1]
+        elif keys_only and isinstance(loop.target, ast.Name):
+            good = a0 is not None and a1 is not None and unparse(a0) == f"{tn[0]}.obj()" and unparse(a1) == f"self._parents[{tn[0]}]"
+        if good:
+            return True, ""
+        why = (f"flag_modified({unparse(a0) if a0 is not None else ''}, {unparse(a1) if a1 is not None else ''}) is not "
+               f"(parent.obj(), key) of the iterated _parents item")
+    return False, why
+
+
+def _dotted_reads(e):
+    from ..astutil import dotted_reads
+    return dotted_reads(e)
+
+
+def _listener_registrations(lf):
+    """{event name: (handler name, {kw: text})} of the `event.listen(target, "<name>", handler, **kw)` calls, also when
+    they are issued from a loop over a literal table of (name, handler) rows"""
+    pm = lf.module.parents()
+    regs = {}
+    for c in calls_in(lf.node):
+        if call_name(c) != "event.listen" or len(c.args) < 3:
+            continue
+        kw = {k.arg: unparse(k.value) for k in c.keywords}
+        if const_str(c.args[1]):
+            regs[const_str(c.args[1])] = (unparse(c.args[2]), kw)
+            continue
+        # for name, fn in (("load", load), ...): event.listen(parent_cls, name, fn, ...)
+        cur = pm.get(c)
+        while cur is not None and cur is not lf.node and not isinstance(cur, ast.For):
+            cur = pm.get(cur)
+        if isinstance(cur, ast.For) and isinstance(cur.iter, (ast.Tuple, ast.List)) and isinstance(cur.target, ast.Tuple) \
+                and all(isinstance(t, ast.Name) for t in cur.target.elts):
+            tn = [t.id for t in cur.target.elts]
+            for row in cur.iter.elts:
+                if not (isinstance(row, (ast.Tuple, ast.List)) and len(row.elts) == len(tn)):
+                    continue
+                bind = dict(zip(tn, row.elts))
+                nm = expand(c.args[1], bind)
+                if const_str(nm):
+                    kw2 = {k.arg: unparse(expand(k.value, bind)) for k in c.keywords}
+                    regs[const_str(nm)] = (unparse(expand(c.args[2], bind)), kw2)
+    return regs
+
+
+def _is_coerce_assign(st, v_names, env):
+    """`<v> = cls.coerce(<key>, <v>)` -> v or None"""
+    if isinstance(st, ast.AnnAssign) and st.value is not None:
+        tgts, value = [st.target], st.value
+    elif isinstance(st, ast.Assign):
+        tgts, value = st.targets, st.value
+    else:
+        return None
+    if not (len(tgts) == 1 and isinstance(tgts[0], ast.Name) and isinstance(value, ast.Call) and call_name(value) == "cls.coerce"):
+        return None
+    if len(value.args) != 2 or unparse(expand(value.args[0], env)) != "key":
+        return None
+    a = expand(value.args[1], env)
+    if isinstance(a, ast.Name) and a.id in v_names and tgts[0].id in v_names:
+        return tgts[0].id
+    return None
+
+
+def _parent_links(fn, g, env, v_names, owners):
+    """CFG nodes of `<v>._parents[<owner>] = key` (v in v_names; owner one of the texts in `owners`)"""
+    out = []
+    for d, sub_, st in subscript_stores(fn):
+        if not isinstance(st, ast.Assign):
+            continue
+        recv = expand(sub_.value, env)
+        if not (isinstance(recv, ast.Attribute) and recv.attr == "_parents" and isinstance(recv.value, ast.Name) and recv.value.id in v_names):
+            continue
+        if unparse(expand(sub_.slice, env)) not in owners or unparse(expand(st.value, env)) != "key":
+            continue
+        out.extend(g.nodes_for(st))
+    return out
+
+
+def _check_set_handler(ctx, lf, s):
+    ps = [a.arg for a in s.args.args]
+    ctx.require(len(ps) >= 3, "set listener signature not understood")
+    tgt, val, old = ps[0], ps[1], ps[2]
+    g = ctx.cfg(s)
+    env = single_defs(s)
+    probs = []
+
+    def fact(e):
+        if isinstance(e, ast.Call) and isinstance(e.func, ast.Name) and e.func.id == "isinstance" and len(e.args) == 2 \
+                and isinstance(e.args[0], ast.Name) and unparse(e.args[1]) == "cls":
+            if e.args[0].id == val:
+                return ("val-isinst", True)
+            if e.args[0].id == old:
+                return ("old-isinst", True)
+        if isinstance(e, ast.Compare) and len(e.ops) == 1 and isinstance(e.ops[0], (ast.Is, ast.IsNot)):
+            l, r = e.left, e.comparators[0]
+            pos = isinstance(e.ops[0], ast.Is)
+            if isinstance(l, ast.Name) and isinstance(r, ast.Name) and {l.id, r.id} == {val, old}:
+                return ("same", pos)
+            if isinstance(l, ast.Name) and l.id == val and isinstance(r, ast.Constant) and r.value is None:
+                return ("val-none", pos)
+        return None
+
+    owners = {tgt, f"inspect({tgt})"}
+    links = _parent_links(s, g, env, {val}, owners)
+    coerces = [i for n in g.nodes if n.kind == "stmt" and _is_coerce_assign(n.stmt, {val}, env) for i in [n.id]]
+    # a foreign value (not an instance of cls) never gets linked / returned as it came in
+    rets = [i for r in walk_local(s) if isinstance(r, ast.Return) for i in g.nodes_for(r)]
+    w = g.witness([g.entry], links + rets, avoid=coerces, edge_ok=assuming(g, {"val-isinst": False, "same": False}, fact, env)) if coerces else ["-"]
+    if w is not None:
+        probs.append("a value that is not an instance of cls is not replaced by cls.coerce(key, value)")
+    w = g.witness([g.entry], [g.exit], avoid=links, edge_ok=assuming(g, {"val-none": False, "same": False}, fact, env)) if links else ["-"]
+    if w is not None:
+        probs.append("the new value is not linked to its parent (value._parents[target] = key)")
+    rstmts = [r for r in walk_local(s) if isinstance(r, ast.Return)]
+    falls = g.exit in g.reachable([g.entry], avoid=rets, edge_ok=no_exc)
+    if not rstmts or falls or not all(r.value is not None and unparse(expand(r.value, env)) == val for r in rstmts):
+        probs.append("the (coerced) value is not returned on every path")
+    unl = []
+    for n in g.nodes:
+        if n.stmt is None or not isinstance(n.stmt, ast.stmt) or n.kind in ("with_exit", "handler", "join"):
+            continue
+        for part in _own(n.stmt):
+            for c in calls_in(part):
+                if isinstance(c.func, ast.Attribute) and c.func.attr == "pop" and c.args:
+                    recv = expand(c.func.value, env)
+                    if unparse(recv) == f"{old}._parents" and unparse(expand(c.args[0], env)) in owners:
+                        unl.append(n.id)
+        if isinstance(n.stmt, ast.Delete):
+            for t in n.stmt.targets:
+                if isinstance(t, ast.Subscript) and unparse(expand(t.value, env)) == f"{old}._parents" and unparse(expand(t.slice, env)) in owners:
+                    unl.append(n.id)
+    w = g.witness([g.entry], [g.exit], avoid=unl, edge_ok=assuming(g, {"old-isinst": True, "same": False}, fact, env)) if unl else ["-"]
+    if w is not None:
+        probs.append("the old value is not unlinked from the parent")
+    ctx.check(not probs, f"{lf.key}:set_", "; ".join(probs), "coerce, link, unlink old, return value", lf.loc)
+
+
+def _own(st):
+    from ..astutil import own_exprs
+    return own_exprs(st)
+
+
+def _check_load_handler(ctx, lf, l):
+    ps = [a.arg for a in l.args.args]
+    ctx.require(len(ps) >= 1, "load listener signature not understood")
+    state = ps[0]
+    g = ctx.cfg(l)
+    env = single_defs(l)
+    # the value read from the instance dictionary
+    v_names = set()
+    for n in walk_local(l):
+        if isinstance(n, ast.Assign) and len(n.targets) == 1 and isinstance(n.targets[0], ast.Name):
+            v = n.value
+            if isinstance(v, ast.Call) and isinstance(v.func, ast.Attribute) and v.func.attr == "get" and unparse(expand(v.func.value, env)) == f"{state}.dict" \
+                    and v.args and unparse(expand(v.args[0], env)) == "key":
+                v_names.add(n.targets[0].id)
+            if isinstance(v, ast.Subscript) and unparse(expand(v.value, env)) == f"{state}.dict" and unparse(expand(v.slice, env)) == "key":
+                v_names.add(n.targets[0].id)
+    probs = []
+
+    def fact(e):
+        if isinstance(e, ast.Compare) and len(e.ops) == 1 and isinstance(e.ops[0], (ast.Is, ast.IsNot)) and isinstance(e.left, ast.Name) \
+                and e.left.id in v_names and isinstance(e.comparators[0], ast.Constant) and e.comparators[0].value is None:
+            return ("none", isinstance(e.ops[0], ast.Is))
+        if isinstance(e, ast.Name) and e.id == "coerce":
+            return ("coerce", True)
+        return None
+
+    links = _parent_links(l, g, env, v_names, {state})
+    w = g.witness([g.entry], [g.exit], avoid=links, edge_ok=assuming(g, {"none": False}, fact, env)) if links else ["-"]
+    if w is not None:
+        probs.append("loaded value is not linked to its parent (_parents[state] = key)")
+    coerces = [n.id for n in g.nodes if n.kind == "stmt" and _is_coerce_assign(n.stmt, v_names, env)]
+    backs = []
+    for d, sub_, st in subscript_stores(l):
+        if isinstance(st, ast.Assign) and unparse(expand(sub_.value, env)) == f"{state}.dict" and unparse(expand(sub_.slice, env)) == "key":
+            bv = expand(st.value, env)
+            if isinstance(bv, ast.Name) and bv.id in v_names:
+                backs.extend(g.nodes_for(st))
+    co_ok = bool(coerces) and bool(backs) and bool(links)
+    if co_ok:
+        # requested -> coerced before it is linked; coerced -> stored back; not requested -> left alone
+        co_ok = g.witness([g.entry], links, avoid=coerces, edge_ok=assuming(g, {"coerce": True, "none": False}, fact, env)) is None \
+            and g.must_pass(coerces, links + [g.exit], backs, edge_ok=no_exc) is None \
+            and g.witness([g.entry], coerces, edge_ok=assuming(g, {"coerce": False}, fact, env)) is None
+    if not co_ok:
+        probs.append("loaded plain value is not coerced and stored back into state.dict under the coerce flag")
+    ctx.check(not probs, f"{lf.key}:load", "; ".join(probs), "coerce, store back, link", lf.loc)
+
+
+@R.rule("C49-R4", floor=10, template="T-FLOW",
+        desc="Mutable.changed flags every parent via flag_modified(parent.obj(), key); _listen_on_attribute "
+             "registers load/refresh/set/pickle/unpickle listeners raw+propagate; set_ coerces foreign "
+             "values, links value._parents[target]=key and returns the value; load coerces and links")
+def r4(ctx):
+    f = ctx.func(f"{MUT}::Mutable.changed")
+    good, why = _changed_flags_every_parent(ctx, f)
     ctx.check(good, f.key, why, "for parent, key in self._parents.items(): flag_modified(parent.obj(), key)", f.loc)
 
     lf = ctx.func(f"{MUT}::MutableBase._listen_on_attribute")
     nf = nested_functions(lf.node)
-    regs = {}
-    for c in calls_in(lf.node):
-        if call_name(c) == "event.listen" and len(c.args) >= 3 and const_str(c.args[1]):
-            kw = {k.arg: unparse(k.value) for k in c.keywords}
-            regs[const_str(c.args[1])] = (unparse(c.args[2]), kw)
+    regs = _listener_registrations(lf)
     for evn, need_ret in EVENTS.items():
         key = f"{lf.key}:listen:{evn}"
         if evn not in regs:
@@ -315,54 +562,11 @@ def r4(ctx):
     # set_ handler
     sname = regs.get("set", ("", {}))[0]
     if sname in nf:
-        s = nf[sname]
-        ps = [a.arg for a in s.args.args]
-        ctx.require(len(ps) >= 3, "set listener signature not understood")
-        tgt, val, old = ps[0], ps[1], ps[2]
-        probs = []
-        co = [c for c in calls_in(s) if call_name(c) == "cls.coerce"]
-        co_ok = False
-        for c in co:
-            par = pm.get(c)
-            if isinstance(par, ast.Assign) and isinstance(par.targets[0], ast.Name) and par.targets[0].id == val:
-                atoms = guard_atoms(lexical_guards(pm, par, stop=s))
-                if (f"isinstance({val}, cls)", False) in atoms:
-                    co_ok = True
-        if not co_ok:
-            probs.append("a value that is not an instance of cls is not replaced by cls.coerce(key, value)")
-        link = any(d == f"{val}._parents" and unparse(sub_.slice) == tgt and isinstance(st, ast.Assign) and unparse(st.value) == "key"
-                   for d, sub_, st in subscript_stores(s))
-        if not link:
-            probs.append("the new value is not linked to its parent (value._parents[target] = key)")
-        rets = [r for r in walk_local(s) if isinstance(r, ast.Return)]
-        if not rets or not all(isinstance(r.value, ast.Name) and r.value.id == val for r in rets):
-            probs.append("the (coerced) value is not returned on every path")
-        unlink = any((call_name(c) or "") == f"{old}._parents.pop" for c in calls_in(s))
-        if not unlink:
-            probs.append("the old value is not unlinked from the parent")
-        ctx.check(not probs, f"{lf.key}:set_", "; ".join(probs), "coerce, link, unlink old, return value", lf.loc)
+        _check_set_handler(ctx, lf, nf[sname])
     # load handler
     lname = regs.get("load", ("", {}))[0]
     if lname in nf:
-        l = nf[lname]
-        probs = []
-        stores = subscript_stores(l)
-        link = [(d, s_, st) for d, s_, st in stores if d.endswith("._parents")]
-        if not link:
-            probs.append("loaded value is not linked to its parent (_parents[state] = key)")
-        co = [c for c in calls_in(l) if call_name(c) == "cls.coerce"]
-        co_ok = False
-        for c in co:
-            par = pm.get(c)
-            if isinstance(par, ast.Assign) and isinstance(par.targets[0], ast.Name):
-                v = par.targets[0].id
-                back = any(d == "state.dict" and isinstance(st, ast.Assign) and unparse(st.value) == v for d, s_, st in stores)
-                atoms = guard_atoms(lexical_guards(pm, par, stop=l))
-                if back and ("coerce", True) in atoms and link and link[0][0] == f"{v}._parents":
-                    co_ok = True
-        if not co_ok:
-            probs.append("loaded plain value is not coerced and stored back into state.dict under the coerce flag")
-        ctx.check(not probs, f"{lf.key}:load", "; ".join(probs), "coerce, store back, link", lf.loc)
+        _check_load_handler(ctx, lf, nf[lname])
         # refresh handler funnels into load
         rname = regs.get("refresh", ("", {}))[0]
         if rname in nf and rname != lname:
@@ -370,7 +574,13 @@ def r4(ctx):
             ctx.check(calls_load, f"{lf.key}:refresh", f"refresh handler {rname} does not call {lname}()", f"-> {lname}()", lf.loc)
     aw = ctx.func(f"{MUT}::Mutable.associate_with_attribute")
     cs = [c for c in calls_in(aw.node) if (call_name(c) or "").endswith("._listen_on_attribute")]
-    ctx.check(bool(cs) and len(cs[0].args) >= 2 and unparse(cs[0].args[1]) == "True", aw.key,
+    want = None
+    if cs:
+        c = cs[0]
+        pos = lf.params.index("coerce") - 1 if "coerce" in lf.params else 1      # (first parameter is cls)
+        want = c.args[pos] if len(c.args) > pos else next((k.value for k in c.keywords if k.arg == "coerce"), None)
+        want = resolve_name(want, single_defs(aw.node)) if want is not None else None
+    ctx.check(want is not None and unparse(want) == "True", aw.key,
               "associate_with_attribute does not request coercion (coerce=True) from _listen_on_attribute",
               "coerce=True", aw.loc)
 
@@ -482,7 +692,7 @@ def _worklist(ctx, f, g, w):
 
 def _iter_kind(ctx, f, it, flag_truthy=None, _depth=0):
     """Classify an iterable expression used to reach descendants from inside function `f`."""
-    if _depth > 4:
+    if _depth > 8:
         return (None, "resolution too deep")
     ix = ctx.index
     if isinstance(it, ast.Name):
@@ -729,7 +939,7 @@ R.mutant("hold-listen-worklist-refed-only-for-resolved", EV,
 R.mutant("mapper-descendants-worklist-not-refed", "orm/mapper.py",
          sub("            descendants.append(item)\n            stack.extend(item._inheriting_mappers)\n", "            descendants.append(item)\n"), "C49-R5")
 R.mutant("subclass-managers-recursion-not-recursive", "orm/instrumentation.py",
-         sub("                    yield from mgr.subclass_managers(True)\n", "                    yield from mgr.subclass_managers(False)\n"), "C49-R5")
+         sub("            classes = util.walk_subclasses(self.class_)\n", "            classes = self.class_.__subclasses__()\n"), "C49-R5")
 R.mutant("walk-subclasses-not-refed", "util/langhelpers.py",
          sub("            seen.add(cls)\n        stack.extend(cls.__subclasses__())\n        yield cls\n", "            seen.add(cls)\n        yield cls\n"), "C49-R5")
 R.mutant("benign-hold-listen-rename-worklist", EV,
@@ -737,10 +947,141 @@ R.mutant("benign-hold-listen-rename-worklist", EV,
              "                todo = list(target.class_.__subclasses__())\n                while todo:\n                    subclass = todo.pop(0)\n                    todo.extend(subclass.__subclasses__())\n"), None)
 R.mutant("benign-instance-listen-materialises-walk", EV,
          sub("            for mgr in target.subclass_managers(True):\n", "            managers = list(target.subclass_managers(True))\n            for mgr in managers:\n"), None)
-# the repair of the C49-R5 finding (walk every class, report the managed ones) must be accepted
-R.mutant("benign-subclass-managers-walks-whole-hierarchy", "orm/instrumentation.py",
-         sub("        for cls in self.class_.__subclasses__():\n            mgr = opt_manager_of_class(cls)\n            if mgr is not None and mgr is not self:\n                yield mgr\n                if recursive:\n                    yield from mgr.subclass_managers(True)\n",
-             "        if recursive:\n            classes = util.walk_subclasses(self.class_)\n        else:\n            classes = self.class_.__subclasses__()\n        for cls in classes:\n            mgr = opt_manager_of_class(cls)\n            if mgr is not None and mgr is not self:\n                yield mgr\n"), None)
+# (the repair of the C49-R5 finding -- walk every class, report the managed ones -- is in the tree now: its spellings)
+R.mutant("benign-subclass-managers-inverted-flag-test", "orm/instrumentation.py",
+         sub("        if recursive:\n            # walk the whole class hierarchy: an intermediate class that has\n            # no manager of its own (``__abstract__``, plain mixin subclass)\n"
+             "            # must not hide the managed classes below it\n            classes = util.walk_subclasses(self.class_)\n        else:\n            classes = self.class_.__subclasses__()\n",
+             "        if not recursive:\n            classes = self.class_.__subclasses__()\n        else:\n            classes = util.walk_subclasses(self.class_)\n"), None)
 R.mutant("benign-instance-listen-early-return-when-not-propagating", EV,
          sub("        if propagate:\n            for mgr in target.subclass_managers(True):\n                event_key.with_dispatch_target(mgr).base_listen(propagate=True)\n",
              "        if not propagate:\n            return\n        for mgr in target.subclass_managers(True):\n            event_key.with_dispatch_target(mgr).base_listen(propagate=True)\n"), None)
+
+
+# ---- rob-G2: benign refactoring families (stored diffs rfG_13 / rfG_15 and neighbours) with their breaking twins
+_PICKLE = (
+    "            val = state.dict.get(key, None)\n"
+    "            if val is not None:\n"
+    "                if \"ext.mutable.values\" not in state_dict:\n"
+    "                    state_dict[\"ext.mutable.values\"] = defaultdict(list)\n"
+    "                state_dict[\"ext.mutable.values\"][key].append(val)\n"
+)
+_PICKLE_HEAD = "        def pickle(\n"
+_PICKLE_EARLY = (
+    "            val = state.dict.get(key, None)\n"
+    "            if val is None:\n"
+    "                return\n"
+    "            if pickle_key not in state_dict:\n"
+    "                state_dict[pickle_key] = defaultdict(list)\n"
+    "            state_dict[pickle_key][key].append(val)\n"
+)
+_UNPICKLE = (
+    "            if \"ext.mutable.values\" in state_dict:\n"
+    "                collection = state_dict[\"ext.mutable.values\"]\n"
+)
+R.mutant("benign-pickle-key-closure-constant", MUT, chain(
+    sub(_PICKLE_HEAD, "        pickle_key = \"ext.mutable.values\"\n\n" + _PICKLE_HEAD),
+    sub(_PICKLE, _PICKLE_EARLY),
+    sub(_UNPICKLE, "            if pickle_key in state_dict:\n                collection = state_dict[pickle_key]\n"),
+    sub("                    for val in state_dict[\"ext.mutable.values\"][key]:\n", "                    for val in state_dict[pickle_key][key]:\n"),
+), None)
+R.mutant("benign-pickle-key-local-constant-and-get", MUT, chain(
+    sub(_UNPICKLE, "            k = \"ext.mutable.values\"\n            if state_dict.get(k) is not None:\n                collection = state_dict[k]\n"),
+    sub("                    for val in state_dict[\"ext.mutable.values\"][key]:\n", "                    for val in collection[key]:\n"),
+), None)
+R.mutant("pickle-key-constants-disagree", MUT, chain(
+    sub(_PICKLE_HEAD, "        pickle_key = \"ext.mutable.values\"\n        unpickle_key = \"ext.mutable.value\"\n\n" + _PICKLE_HEAD),
+    sub(_PICKLE, _PICKLE_EARLY),
+    sub(_UNPICKLE, "            if unpickle_key in state_dict:\n                collection = state_dict[unpickle_key]\n"),
+    sub("                    for val in state_dict[\"ext.mutable.values\"][key]:\n", "                    for val in state_dict[unpickle_key][key]:\n"),
+), "C49-R3")
+_CHANGED = "        for parent, key in self._parents.items():\n            flag_modified(parent.obj(), key)\n"
+R.mutant("benign-changed-renamed-loop-vars-and-locals", MUT, sub(
+    _CHANGED, "        for parent_state, attr_key in self._parents.items():\n            parent_obj = parent_state.obj()\n            flag_modified(parent_obj, attr_key)\n"), None)
+R.mutant("benign-changed-loop-over-keys-materialised", MUT, sub(
+    _CHANGED, "        if not self._parents:\n            return\n        for parent in list(self._parents):\n            flag_modified(parent.obj(), self._parents[parent])\n"), None)
+R.mutant("benign-changed-through-helper", MUT, sub(
+    _CHANGED, "        for parent, key in self._parents.items():\n            self._flag_parent(parent, key)\n\n"
+              "    def _flag_parent(self, parent_state: Any, attr_key: str) -> None:\n        flag_modified(parent_state.obj(), attr_key)\n"), None)
+R.mutant("changed-flags-the-state-not-the-instance", MUT, sub(
+    _CHANGED, "        for parent_state, attr_key in self._parents.items():\n            parent_obj = parent_state\n            flag_modified(parent_obj, attr_key)\n"), "C49-R4")
+R.mutant("changed-helper-skips-unloaded-parents", MUT, sub(
+    _CHANGED, "        for parent, key in self._parents.items():\n            self._flag_parent(parent, key)\n\n"
+              "    def _flag_parent(self, parent_state: Any, attr_key: str) -> None:\n        if attr_key in parent_state.dict:\n            flag_modified(parent_state.obj(), attr_key)\n"), "C49-R4")
+_SET_BODY = (
+    "            if not isinstance(value, cls):\n"
+    "                value = cls.coerce(key, value)\n"
+    "            if value is not None:\n"
+    "                value._parents[target] = key\n"
+)
+R.mutant("benign-set-listener-flag-local-inverted-alias", MUT, sub(
+    _SET_BODY,
+    "            is_ours = isinstance(value, cls)\n"
+    "            if not is_ours:\n"
+    "                value = cls.coerce(key, value)\n"
+    "            if value is None:\n"
+    "                pass\n"
+    "            else:\n"
+    "                parents = value._parents\n"
+    "                parents[target] = key\n"), None)
+R.mutant("set-listener-links-before-coercing", MUT, sub(
+    _SET_BODY,
+    "            if value is not None:\n"
+    "                value._parents[target] = key\n"
+    "            if not isinstance(value, cls):\n"
+    "                value = cls.coerce(key, value)\n"), "C49-R4")
+R.mutant("set-listener-coerces-only-own-instances", MUT, sub(
+    _SET_BODY,
+    "            is_ours = isinstance(value, cls)\n"
+    "            if is_ours:\n"
+    "                value = cls.coerce(key, value)\n"
+    "            if value is not None:\n"
+    "                value._parents[target] = key\n"), "C49-R4")
+R.mutant("set-listener-old-value-unlinked-only-when-new-is-none", MUT, sub(
+    "            if isinstance(oldvalue, cls):\n                oldvalue._parents.pop(inspect(target), None)\n",
+    "            if isinstance(oldvalue, cls) and value is None:\n                oldvalue._parents.pop(inspect(target), None)\n"), "C49-R4")
+_LOAD_BODY = (
+    "            val = state.dict.get(key, None)\n"
+    "            if val is not None:\n"
+    "                if coerce:\n"
+    "                    val = cls.coerce(key, val)\n"
+    "                    assert val is not None\n"
+    "                    state.dict[key] = val\n"
+    "                val._parents[state] = key\n"
+)
+R.mutant("benign-load-listener-early-return", MUT, sub(
+    _LOAD_BODY,
+    "            val = state.dict.get(key, None)\n"
+    "            if val is None:\n"
+    "                return\n"
+    "            if coerce:\n"
+    "                val = cls.coerce(key, val)\n"
+    "                assert val is not None\n"
+    "                state.dict[key] = val\n"
+    "            val._parents[state] = key\n"), None)
+R.mutant("load-listener-links-only-coerced-values", MUT, sub(
+    _LOAD_BODY,
+    "            val = state.dict.get(key, None)\n"
+    "            if val is None:\n"
+    "                return\n"
+    "            if not coerce:\n"
+    "                return\n"
+    "            val = cls.coerce(key, val)\n"
+    "            assert val is not None\n"
+    "            state.dict[key] = val\n"
+    "            val._parents[state] = key\n"), "C49-R4")
+R.mutant("load-listener-does-not-store-coerced-value-back", MUT, sub(
+    "                    assert val is not None\n                    state.dict[key] = val\n", "                    assert val is not None\n"), "C49-R4")
+_REGS = (
+    "        event.listen(parent_cls, \"pickle\", pickle, raw=True, propagate=True)\n"
+    "        event.listen(\n"
+    "            parent_cls, \"unpickle\", unpickle, raw=True, propagate=True\n"
+    "        )\n"
+)
+R.mutant("benign-pickle-listeners-registered-from-a-table", MUT, sub(
+    _REGS,
+    "        for event_name, handler in (\n            (\"pickle\", pickle),\n            (\"unpickle\", unpickle),\n        ):\n"
+    "            event.listen(\n                parent_cls, event_name, handler, raw=True, propagate=True\n            )\n"), None)
+R.mutant("listener-table-lacks-unpickle", MUT, sub(
+    _REGS,
+    "        for event_name, handler in ((\"pickle\", pickle),):\n"
+    "            event.listen(\n                parent_cls, event_name, handler, raw=True, propagate=True\n            )\n"), "C49-R4")
